@@ -342,6 +342,9 @@ pub fn bfs<const K: usize>(
                         out.violate(Violation::new(format!("accessors disagree with the arena: {msg}"), rec()).tag("kind", "accessor").tag("op", "accessors"));
                     }
                     out.add("accessor_checks", 1);
+                    if let Err((op, msg)) = edge_calls(&t2, probe_len) {
+                        out.violate(Violation::new(msg, rec()).tag("kind", "edge_call").tag("op", op));
+                    }
                 }
                 let id = states.len();
                 seen.insert(after, id);
@@ -450,6 +453,57 @@ pub fn accessors<const K: usize>(t0: &Tree<u8, K>) -> Result<(), String> {
         Ok(x) => x,
         Err(m) => Err(format!("an accessor panicked: {m}")),
     }
+}
+
+/// Calls that are not part of the explored alphabet, each on a copy of the state: a label outside 0..K (an invalid
+/// argument: the call may fail or panic but must leave the tree observably unchanged), and add_root (the documented
+/// exception to reachability: the former tree must stay as it is, the new root is a fresh child-less node).
+pub fn edge_calls<const K: usize>(t0: &Tree<u8, K>, probe_len: usize) -> Result<(), (&'static str, String)> {
+    let before = canon(t0, probe_len);
+    let idxs: Vec<usize> = t0.node_indices().collect();
+    for &p in &idxs {
+        for (name, call) in [
+            ("add_child_node", 0u8),
+            ("try_remove_child", 1),
+            ("merge_child_with_parent", 2),
+        ] {
+            let mut t = t0.clone();
+            let r = catch(|| match call {
+                0 => t.add_child_node(p, K, 7).is_ok(),
+                1 => t.try_remove_child(p, K).is_ok(),
+                _ => t.merge_child_with_parent(p, K).is_ok(),
+            });
+            if r == Ok(true) {
+                return Err((name, format!("{name}({p}, label {K}) succeeded although the label is outside 0..{K}")));
+            }
+            if canon(&t, probe_len) != before {
+                return Err((name, format!("{name}({p}, label {K}) failed but changed the tree: len {} -> {}", t0.len(), t.len())));
+            }
+        }
+    }
+    // add_root on a non-empty tree
+    let mut t = t0.clone();
+    match catch(|| t.add_root(9)) {
+        Err(m) => return Err(("add_root", format!("add_root panicked: {m}"))),
+        Ok(r) => {
+            if before.nodes.iter().any(|n| n.0 == r) {
+                return Err(("add_root", format!("add_root returned the index {r} of a live node")));
+            }
+            if t.get_root_idx() != r {
+                return Err(("add_root", "add_root did not make the new node the root".into()));
+            }
+            let after: Vec<(usize, u8, Option<usize>, Vec<Option<usize>>, bool)> = t.node_iter().map(|(i, n)| (i, n.value, n.parent, n.children.to_vec(), n.isleaf)).collect();
+            let old: Vec<_> = after.iter().filter(|n| n.0 != r).cloned().collect();
+            if old != before.nodes {
+                return Err(("add_root", format!("add_root changed the former tree: {:?} -> {:?}", before.nodes, old)));
+            }
+            match after.iter().find(|n| n.0 == r) {
+                Some(n) if n.1 == 9 && n.2.is_none() && n.3.iter().all(|c| c.is_none()) && n.4 => {}
+                other => return Err(("add_root", format!("the new root is not a fresh child-less leaf: {:?}", other))),
+            }
+        }
+    }
+    Ok(())
 }
 
 fn opname(a: &Act) -> &'static str {
